@@ -122,6 +122,12 @@ KNOWN = {
         query AsBase { node { ...OnNode } }
         query Unpacked { me { ...OnNode name } }
     """, {"as_base": {"AsBaseNode": ["OnNode"]}}),
+    # a fragment spread next to another spread fragment that already includes it: both become bases, in alphabetical order
+    "fragment-spread-next-to-a-fragment-that-includes-it": ("""
+        query GetMe { me { ...Alpha ...Beta } }
+        fragment Alpha on User { id }
+        fragment Beta on User { name ...Alpha }
+    """, {"get_me": {"GetMeMe": ["Alpha", "Beta"]}, "fragments": {"Beta": ["Alpha"]}}),
 }
 
 
